@@ -86,6 +86,10 @@ FIXED = [
      "`def 0 { a(); message_SwitchTalk ($K) { case 1: 'x' default: 'y' } }` (no terminator) through the compile and the decompile command came back as `message_SwitchTalk ($K) { .. return; } return;`, a ParseError (204 of 19.8k programs once the check compiled the round-trip text in every case, not only when CLI and API text differ)"),
     ("C15", "fix: a call at the very end of a routine was followed by a jump to the called label",
      "`def 0 { @L0; call @L0; }` came back as `@label_0; call @label_0; jump @label_0;` (7 programs)"),
+    ("C09", "fix: jump ops were mapped although no jump statement was written for them, elseif headers were mapped to the closing brace",
+     "[foo, Jump -> bar, bar, Return]: the Jump got the entry (3, 4) = the line `@label_0;`; in larger sets the entry pointed at another op's statement, behind the end of a line or into `default:`; `} elseif ( .. ) {` headers had the column of the brace. The check had exempted both (17.9k of 74k inputs once the exemptions were dropped; a sub-agent pointed at them)"),
+    ("C02", "fix: a case whose block ends with a jump to the end of the switch that is still in the graph lost its break",
+     "[Switch $V, Case 1 -> C, message_Talk, Jump -> E, C: Call -> message_Talk, Jump -> E, E: Return] decompiled to `case 1: call @label_2; default: @label_2; message_Talk(1); break;` (first set of family R; pointed out by a sub-agent)"),
     ("C02", "fix: dungeon mode values other than 0..3 were printed as the 'closed' constant",
      "`switch (dungeon_mode(D)) { case DMODE_OPEN: .. }` (or any constant / other number as case value or flag_SetDungeonMode value) decompiled to `case DMODE_CLOSE:` (476 of 55k inputs under seed rotation 2)"),
     ("C09", "fix: inserted break_loop/continue statements overwrote the source map entry of the op before them",
